@@ -41,21 +41,22 @@ def make_case(rng, tier):
         ps = simlib.gen_problem(rng)
         if ps is None:
             continue
+        fns = simlib.gen_tables(rng) if simlib.uses_ifuns(ps) else []
         try:
-            real = simlib.make_real(ps)
+            real = simlib.make_real(ps, fns)
         except simlib.Skip:
             continue
-        return simlib.payload(ps, simlib.interleave_ops(real, rng, n_ops))
+        return simlib.payload(ps, simlib.interleave_ops(real, rng, n_ops), fns)
 
 
 def cases(rng, tier):
-    n = 150 if tier == "quick" else 3000
+    n = 120 if tier == "quick" else 2500
     for _ in range(n):
         yield make_case(rng, tier)
 
 
 def impl(payload):
-    real = simlib.Real(payload[1])
+    real = simlib.Real(payload[1], payload[2][1:])
     return real.run(payload[3][1:])[0]
 
 
@@ -106,9 +107,11 @@ def oracle(payload):
 def shrink(payload):
     ops = payload[3][1:]
 
+    fns = payload[2][1:]
+
     def rebuild(ps):
         try:
-            real = simlib.make_real(ps)
+            real = simlib.make_real(ps, fns)
         except simlib.Skip:
             return None
         # keep the ops that still make sense for the smaller problem
@@ -116,11 +119,11 @@ def shrink(payload):
         kept = [o for o in ops if o[0] not in ("apply", "isapp") or o[2] in names]
         if len(kept) != len(ops):
             return None
-        return simlib.payload(ps, kept)
+        return simlib.payload(ps, kept, fns)
     # drop trailing / single ops first (slot numbers of later ops would shift, so only from the end)
     for n in (len(ops) // 2, len(ops) - 1):
         if 1 <= n < len(ops):
-            yield simlib.payload(payload[1], ops[:n])
+            yield simlib.payload(payload[1], ops[:n], payload[2][1:])
     yield from simlib.shrink_problem(payload, rebuild)
 
 
